@@ -185,7 +185,11 @@ func (s *S) Run(c *scen.Ctx) {
 
 func (s *S) onAccept(c *scen.Ctx, sc *world.SrvConn) {
 	p := &connPlan{kind: "keep", lastActive: simrt.Elapsed()}
-	switch simrt.Draw(5, "c11.connplan") {
+	switch simrt.Draw(6, "c11.connplan") {
+	case 5:
+		// the server dies in the middle of a response: the client has half a frame when the stream ends
+		p.kind = "cut-mid-response"
+		p.after = 1 + simrt.Draw(3, "c11.after")
 	case 1, 2:
 		p.kind = "close-after"
 		p.after = 1 + simrt.Draw(4, "c11.after")
@@ -249,6 +253,20 @@ func (s *S) answer(c *scen.Ctx, sc *world.SrvConn, req *refcodec.Request) {
 	s.mu.Lock()
 	p := s.plans[sc.ID]
 	s.mu.Unlock()
+	if p != nil && p.kind == "cut-mid-response" {
+		s.mu.Lock()
+		cut := !p.closed && p.answered+1 == p.after
+		s.mu.Unlock()
+		if cut {
+			raw := refcodec.EncodeResponse(world.Echo(req))
+			n := 1 + simrt.Draw(len(raw)-1, "c11.cutat")
+			c.Count("fault.server_dies_mid_response", 1)
+			sc.WriteRaw(raw[:n])
+			simrt.Event("server wrote %d of %d bytes of the answer to %s on conn#%d and dies", n, len(raw), req.Buffer, sc.ID)
+			s.closeConn(sc, p)
+			return
+		}
+	}
 	err := sc.Reply(world.Echo(req))
 	simrt.Event("server answered %s (id %d) on conn#%d err=%v", req.Buffer, req.RequestID, sc.ID, err)
 	s.mu.Lock()
